@@ -398,6 +398,14 @@ def cycleOf (daemon : Bool) (sub : Bool) (mem : Option (List Fn)) (fields : Kvs)
   if p.isEmpty then (⟨[], s, .ok none none⟩, none)
   else (patchObj sub p orig env s, memoryAfter daemon mem (patchObj sub p orig env s).outcome)
 
+/-- `memories.recall(raw_body)`: the per-object memory (and `remaining_patch` in it) is kept under the object's
+    uid — a cycle for an object of another uid (the name re-used) does not see it. `prev`: the uid the memory
+    `mem` belongs to (`none`: the first cycle, `mem` is its own). -/
+def recalled (prev : Option Nat) (orig : Obj) (mem : Option (List Fn)) : Option (List Fn) :=
+  match prev with
+  | none => mem
+  | some u => if u = orig.uid then mem else none
+
 /-- `process_resource_event` -/
 def cycle := cycleOf false
 /-- `_daemon` / `_timer` -/
@@ -442,6 +450,14 @@ def daemonRun (sub : Bool) : Option (List Fn) → Server → List CycleIn → Li
       let r := daemonCycle sub mem c.fields c.fns c.orig c.env s
       let rest := daemonRun sub r.2 r.1.server cs
       ((c, r.1) :: rest.1, rest.2)
+
+/-- The whole life of a daemon whose function returns after the invocations `cs` (`_daemon`): the loop
+    `while not stopper.is_set() and not state.done` is left right after the delivery of the last invocation;
+    `cause.patch = Patch(remaining_patch, body=body)` is assigned once more, but no further delivery follows.
+    Result: the server as the daemon leaves it, and the remaining patch that is dropped with the task.
+    (`_timer` leaves its loop only when it is stopped: its remaining patch waits for the next tick.) -/
+def daemonLife (sub : Bool) (s : Server) (cs : List CycleIn) : Server × Option (List Fn) :=
+  ((daemonRun sub none s cs).2.2, (daemonRun sub none s cs).2.1)
 
 /-- What `patch_obj` hands back to its caller: `(patched_body, remaining_patch)`. A vanished object gives
     `(None, None)` — and so does a call that sent nothing at all (`patched_body` stays `None`). -/
